@@ -241,6 +241,20 @@ def one_bitmap(g, nwalk, unx="next?"):
         for k in ks:
             g.emit("%s %s %d" % (form, x, k))
             g.count("stop:%d" % k if k in STOPS else "stop:other")
+    # ---- a sequence value taken BEFORE a mutation and ranged over afterwards (twice): a new chunk appended / inserted / the very
+    # first chunk of an empty bitmap, an edit inside an existing chunk
+    if r.random() < 0.5:
+        y = g.fresh()
+        g.emit("clone %s %s" % (y, x))
+        for kind in ("ranges", "values", "backward"):
+            kk = sorted(keys) if keys else [0]
+            newk = [k for k in (kk[-1] + 1, max(0, kk[0] - 1), (kk[0] + kk[-1]) // 2, 65535) if 0 <= k <= 65535]
+            g.emit("seqlate %s %s %d" % (kind, y, r.choice(newk) * 65536 + r.randrange(65536)))
+            g.emit("seqlate %s %s %d" % (kind, y, r.choice(pool)))
+        e = g.fresh()
+        g.emit("new %s" % e)
+        g.emit("seqlate %s %s %d" % (r.choice(["ranges", "values"]), e, r.choice(pool)))
+        g.count("seq:late")
     # ---- forward iterator
     i = g.fresh("i")
     g.emit("it %s %s" % (i, x))
@@ -396,6 +410,26 @@ def _iter(g, scale):
               "uit u0 e0 0 4294967297", "uit u0 e0 65530 65540", "drain u0", "unset e0 0 4294967296 3",
               "unset e0 4294967295 4294967296 -1"):
         g.emit(c)
+    # full chunks that are NOT adjacent (absent chunks between them), of run and of bitmap kind, and a chunk whose unset values all lie
+    # below the window start followed by a distant full chunk: the unset iterators walk the absent chunks in between
+    full = "ffffffffffffffff*1024"
+    for j, rep in enumerate(["1:R:0+65535;4:R:0+65535;9:A:5", "2:B:65536:%s;5:B:65536:%s" % (full, full),
+                             "65524:R:0+65535;65527:B:65536:%s" % full, "3:R:100+65435;7:R:0+65535;8:R:0+65535"]):
+        x = "g%d" % j
+        g.emit("mkrepr %s cow=0;%s" % (x, rep))
+        ks = [int(t.split(":")[0]) for t in rep.split(";")]
+        lo, hi = max(0, (ks[0] - 1) * 65536 + 65000), min(U32, (ks[-1] + 1) * 65536 + 10)
+        g.emit("unset %s %d %d -1" % (x, lo, hi))
+        g.emit("uit gu%d %s %d %d" % (j, x, ks[0] * 65536 + 200, hi))
+        for _ in range(3):
+            g.emit("next? gu%d" % j)
+        g.emit("adv gu%d %d" % (j, (ks[0] + 1) * 65536 + 65530))
+        for _ in range(8):
+            g.emit("next? gu%d" % j)
+        g.emit("peek? gu%d" % j)
+        g.emit("adv gu%d %d" % (j, (ks[-1] - 1) * 65536 + 7))
+        g.emit("drain gu%d 20" % j)
+        g.count("iterbm:separated-full-chunks")
     # the full universe: 65536 full chunks; Ranges must merge them all, the unset iterators must find nothing
     if r.random() < 0.5:
         g.count("iterbm:universe")
